@@ -19,9 +19,15 @@ THEOREMS = {"C04": ["apply_patch_replay", "apply_patch_verdicts", "verdicts_are_
                     "section_reverse_restores", "section_roundtrip", "section_roundtrip_bytes", "section_creates",
                     "section_reverse_of_creation_removes", "section_deletes", "section_reverse_of_deletion_recreates",
                     "creation_roundtrip", "deletion_roundtrip", "section_reverse_of_creation_without_E", "rename_forward",
-                    "rename_reverse", "rename_roundtrip"],
+                    "rename_reverse", "rename_roundtrip", "pure_rename_reverse", "pure_rename_reverse_quoted"],
             "C06": ["reapply_ignored", "reapply_reversed", "force_no_guess", "apply_ignored_total", "section_ignored_N",
-                    "section_ignored_N_over", "section_ignored_N_frame"], "C15": ["dry_run_pure", "dry_run_predicts"], "C16": ["section_ops_allowed", "finalize_ops_allowed", "finalize_removals_allowed", "exec_op_frame"],
+                    "section_ignored_N_over", "section_ignored_N_frame",
+                    "apply_reversed_total", "section_reapplied_t", "section_reapplied_t_frame",
+                    "section_reapplied_t_bytes", "section_reapplied_t_backup", "conforming_looks_reversed",
+                    "process_patch_reapplied_t", "process_patch_ignored_N", "process_patch_reapplied_N",
+                    "run_patch_reapplied_t", "run_patch_file_reapplied_t", "run_patch_reapplied_N",
+                    "run_patch_file_reapplied_N", "apply_patch_force", "process_section_with_apply",
+                    "section_force_no_guess", "force_messages", "stats_only_head"], "C15": ["dry_run_pure", "dry_run_predicts"], "C16": ["section_ops_allowed", "finalize_ops_allowed", "finalize_removals_allowed", "exec_op_frame"],
             "C17": ["write_now_sets_mode", "refusal_writes_only_rejects", "git_section_mode", "section_git_next",
                     "git_series_mode"],
             "C18": ["backup_name_spec", "make_backup_for_shape", "ensure_extends", "backup_holds_original", "backup_only_once",
